@@ -156,7 +156,7 @@ impl DiagRig {
         for _ in 0..40 {
             self.now += 500;
             let now = Instant::from_micros(self.now);
-            let mut buf = [0u8; 300];
+            let mut buf = [0xBDu8; 300];
             let Some(r) = self.master.transmit_telegram(now, &self.fdl, TelegramTx::new(&mut buf), HighPrioOnly::No) else { continue };
             let Some(req) = rc::decode_one(&buf[..r.bytes_sent()]) else {
                 fail!("tx-undecodable", "master sent {}", hex(&buf[..r.bytes_sent()]));
@@ -243,7 +243,7 @@ fn scanner_case(pdu: &[u8], addr_seed: u64) -> CaseResult {
     let fdl = FdlActiveStation::new(ParametersBuilder::new(2, profirust::Baudrate::B500000).build());
     let mut sc = dp::scan::DpScanner::new();
     let now = Instant::ZERO;
-    let mut buf = [0u8; 300];
+    let mut buf = [0xBDu8; 300];
     let r = sc.transmit_telegram(now, &fdl, TelegramTx::new(&mut buf), HighPrioOnly::No);
     let Some(r) = r else { fail!("scanner", "scanner did not send") };
     let Some(RefFrame::Data { da, .. }) = rc::decode_one(&buf[..r.bytes_sent()]) else { fail!("scanner", "undecodable request") };
